@@ -169,6 +169,11 @@ def judge_irrelevant(rec, table, origin):
     if rel:
         sh = '%s%s->%s%s' % (shape(e), '-primitive' if rec.get('etype_prim') else '', shape(r),
                              '+top-argument' if (r[0] == 'i' and any(R.is_top(a[2] if a[0] == 'p' else a) for a in r[2] if a != rm.STAR)) else '')
+        if rel in ('result-is-subtype', 'result-is-supertype'):
+            # does the relation hold through declared supertypes alone, or only because every class is below the top type?
+            R0 = rm.RM(table, implicit_top=False)
+            if not (R0.sub(nb, ob) if rel == 'result-is-subtype' else R0.sub(ob, nb)):
+                sh += '+via-implicit-top'
         out.append(('C09/find_irrelevant_type/%s/%s/%s' % (rel, sh, origin), {'etype': rm.show(e), 'result': rm.show(r)}))
     return out
 
